@@ -33,6 +33,7 @@ theorem sliceIndices_step (n : Nat) (a b c : Option Int) (s e st : Int)
 end HcipyVerif.ModeBasis
 
 namespace HcipyVerif.Mirror
+open HcipyVerif.ModeBasis
 variable {K : Type} [Field K]
 
 theorem sum_zipWith_mul_ind (s c : List K) (hs : ∀ a ∈ s, a * a = a) :
@@ -83,6 +84,35 @@ theorem power_applyPhase (nsq : K → K) (e : List (PVal K)) (d : List K) (h : e
       have := ih ts (by simpa using h)
       simp only [applyPhase, List.zipWith_cons_cons, List.map_cons] at this ⊢
       rw [this]
+
+/-! #### over exact numbers an incremental update is a recomputation -/
+
+theorem dot_sub_add {R : Type} [CommRing R] (r a c : List R) (h : c.length = a.length) :
+    dot r c + dot r (List.zipWith (· - ·) a c) = dot r a := by
+  unfold dot
+  induction r generalizing a c with
+  | nil => simp
+  | cons x xs ih =>
+    cases a with
+    | nil => cases c <;> simp_all
+    | cons y ys =>
+      cases c with
+      | nil => simp at h
+      | cons z zs =>
+        have := ih ys zs (by simpa using h)
+        simp only [List.zipWith_cons_cons, List.sum_cons] at this ⊢
+        rw [← this]
+        ring
+
+theorem matvec_sub_add {R : Type} [CommRing R] (infl : List (List R)) (a c : List R)
+    (h : c.length = a.length) :
+    List.zipWith (· + ·) (matvec infl c) (matvec infl (List.zipWith (· - ·) a c)) = matvec infl a := by
+  unfold matvec
+  induction infl with
+  | nil => simp
+  | cons r rs ih =>
+    simp only [List.map_cons, List.zipWith_cons_cons]
+    rw [ih, dot_sub_add r a c h]
 
 /-! #### what a formal field value stands for -/
 
